@@ -118,10 +118,7 @@ func writeFileWithBackup(path string, target []byte) (err error) {
 	_, err = f.Write(target)
 	f.Close()
 	if err != nil {
-		return
-	}
-	err = os.Remove(path)
-	if err != nil {
+		os.Remove(tmpfile)
 		return
 	}
 	return os.Rename(tmpfile, path)
